@@ -31,7 +31,11 @@ CLASSES = [
     ('ladybug/monthlychart.py', 'MonthlyChart'),
     ('ladybug/psychchart.py', 'PsychrometricChart'),
     ('ladybug/compass.py', 'Compass'),
+    ('ladybug/datacollection.py', 'HourlyContinuousCollection'),
 ]
+# base classes whose members are inherited (furthest first)
+BASES = {'HourlyContinuousCollection': [('ladybug/_datacollectionbase.py', 'BaseCollection'),
+                                        ('ladybug/datacollection.py', 'HourlyDiscontinuousCollection')]}
 
 
 class Eff(object):
@@ -54,19 +58,51 @@ class Eff(object):
         self.code += o.code
 
 
+def _empty_guard(test):
+    """Attributes of an emptiness test (`self._x is None`, `not self._x`, and/or of those), else None."""
+    if isinstance(test, ast.Compare) and len(test.ops) == 1 and isinstance(test.ops[0], ast.Is) \
+            and _is_self_attr(test.left) and isinstance(test.comparators[0], ast.Constant) \
+            and test.comparators[0].value is None:
+        return [test.left.attr]
+    if isinstance(test, ast.UnaryOp) and isinstance(test.op, ast.Not) and _is_self_attr(test.operand):
+        return [test.operand.attr]
+    if isinstance(test, ast.BoolOp):
+        out = []
+        for v in test.values:
+            g = _empty_guard(v)
+            if g is None:
+                return None
+            out += g
+        return out
+    return None
+
+
 def _is_self_attr(n):
     return isinstance(n, ast.Attribute) and isinstance(n.value, ast.Name) and n.value.id == 'self'
 
 
 class ClassInfo(object):
-    def __init__(self, rel, cname, full=False):
+    def __init__(self, rel, cname, full=False, bases=()):
         self.full = full      # full: property reads inline *all* their writes (for the dynamic cross-check)
         tree, _ = parse_file(rel)
         self.rel, self.cname = rel, cname
         cls = find_class(tree, cname)
         self.getters, self.setters, self.methods = {}, {}, {}
-        self.funcnames = set(f.name for f in cls.body if isinstance(f, ast.FunctionDef))
-        for f in cls.body:
+        # members inherited from base classes (nearest base last, the class itself overrides all)
+        body = []
+        for brel, bname in bases:
+            btree, _ = parse_file(brel)
+            body += find_class(btree, bname).body
+        body += cls.body
+        self.funcnames = set(f.name for f in body if isinstance(f, ast.FunctionDef))
+        # class-level attributes (shared by all instances until an instance assigns its own)
+        self.class_attrs = set()
+        for n in body:
+            if isinstance(n, ast.Assign):
+                for tg in n.targets:
+                    if isinstance(tg, ast.Name) and tg.id.startswith('_') and not tg.id.startswith('__'):
+                        self.class_attrs.add(tg.id)
+        for f in body:
             if not isinstance(f, ast.FunctionDef):
                 continue
             kind = 'method'
@@ -79,10 +115,13 @@ class ClassInfo(object):
                     kind = 'static'
             if kind == 'getter':
                 self.getters[f.name] = f
+                self.setters.pop(f.name, None)      # an overriding property drops the inherited setter
+                self.methods.pop(f.name, None)
             elif kind == 'setter':
                 self.setters[f.name] = f
             elif kind == 'method':
                 self.methods[f.name] = f
+                self.getters.pop(f.name, None)
         if '__init__' not in self.methods:
             raise ExtractError('%s.%s: no __init__' % (rel, cname))
         self._memo = {}
@@ -118,7 +157,11 @@ class ClassInfo(object):
                 g = sorted(set(n.attr for n in ast.walk(st.test) if _is_self_attr(n)
                                and n.attr.startswith('_') and n.attr not in self.getters))
                 if g:
-                    blocks.append((g, st.test, st.body))
+                    eg = _empty_guard(st.test)
+                    if eg is not None and all(a.startswith('_') and a not in self.getters for a in eg):
+                        blocks.append((sorted(set(eg)), st.test, st.body))
+                    else:       # a value-dependent conditional: may refine a slot, is not a cache guard
+                        blocks.append((None, st.test, st.body))
                     rest += st.orelse
                     continue
             rest.append(st)
@@ -181,8 +224,9 @@ class ClassInfo(object):
             for k in n.keywords:
                 self._visit(k.value, e, stack)
             return
-        if isinstance(n, (ast.FunctionDef, ast.Lambda, ast.ClassDef)) and not isinstance(n, ast.Lambda):
-            raise ExtractError('%s.%s: nested definition at line %d' % (self.rel, self.cname, n.lineno))
+        if isinstance(n, ast.ClassDef):
+            raise ExtractError('%s.%s: nested class at line %d' % (self.rel, self.cname, n.lineno))
+        # a nested function / lambda: its body is counted as if it ran (closures over `self`)
         for c in ast.iter_child_nodes(n):
             self._visit(c, e, stack)
 
@@ -235,7 +279,7 @@ class ClassInfo(object):
         for name in sorted(self.getters):
             blocks, rest = self.getter_parts(name)
             key = ('p', name)
-            sites = []
+            sites, refines = [], []
             reads, direct, clears = set(), set(), set()
             for g, test, blk in blocks:
                 b = self.effects(blk, (key,))
@@ -248,6 +292,10 @@ class ClassInfo(object):
                     clears |= set(a for a, k in b.writes.items() if k == {'none'})
                     continue
                 code = ast.dump(ast.Module(body=blk, type_ignores=[])) + '|' + '|'.join(sorted(set(b.code)))
+                if g is None:       # value-dependent rewrite of slots (e.g. reporting_frequency text -> int)
+                    clears |= set(a for a, k in b.writes.items() if k == {'none'})
+                    refines.append({'slots': slots, 'code': ast.dump(test) + '?' + code})
+                    continue
                 sites.append({'guarded': True, 'guard': g, 'slots': slots, 'code': code,
                               'reads': sorted(b.reads | tst.reads),
                               'clears': sorted(a for a, k in b.writes.items() if k == {'none'})})
@@ -262,7 +310,7 @@ class ClassInfo(object):
                 sites.append({'guarded': False, 'guard': [], 'slots': uslots, 'code': code,
                               'reads': sorted(reads), 'clears': []})
             getters[name] = {'sites': sites, 'direct': sorted(direct), 'reads': sorted(reads),
-                             'clears': clears}
+                             'clears': clears, 'refines': refines}
         for name in sorted(self.setters):
             ef = self._setter_eff(name, ())
             note(ef.writes)
@@ -285,6 +333,24 @@ class ClassInfo(object):
                                         'clears': sorted(a for a, k in ef.writes.items() if k == {'none'}),
                                         'reads': sorted(ef.reads)}
         dead = set(a for a, k in all_writes.items() if k == {'none'})
+        # temporaries: an attribute that only unguarded blocks assign and that every getter loading it
+        # assigns itself (unguarded) first is recomputed before each use - it is not a cache
+        filled = {}
+        for gname, g in getters.items():
+            for st in g['sites']:
+                for a in st['slots']:
+                    filled.setdefault(a, []).append((gname, st))
+        scratch = set()
+        for a, lst in filled.items():
+            if all(not st['guarded'] for _, st in lst) and not any(a in r['slots'] for g in getters.values()
+                                                                    for r in g['refines']):
+                readers = [gn for gn, g in getters.items() if a in g['direct']]
+                if all(any(gn == g2 and not st['guarded'] for g2, st in lst) for gn in readers):
+                    scratch.add(a)
+        for g in getters.values():
+            for st in g['sites']:
+                st['slots'] = [a for a in st['slots'] if a not in scratch]
+            g['sites'] = [st for st in g['sites'] if st['slots']]
         slots = set()
         for g in getters.values():
             for s in g['sites']:
@@ -306,6 +372,7 @@ class ClassInfo(object):
             attrs |= set(g['reads'])
         for s in setters.values():
             attrs |= set(s['reads'])
+        attrs |= self.class_attrs
         attrs = sorted(attrs - dead)
 
         def clean(lst):
@@ -320,20 +387,27 @@ class ClassInfo(object):
                     s[k] = clean(s[k])
             for k in ('direct', 'reads', 'clears'):
                 g[k] = clean(g[k])
+            rf = []
+            for r in g['refines']:
+                h = hashlib.sha1(r['code'].encode('utf-8')).hexdigest()
+                e = codes.setdefault(h, len(codes))
+                rf += [(a, e) for a in clean(r['slots'])]
+            g['refines'] = rf
         for s in setters.values():
             for k in ('writes', 'clears', 'reads'):
                 s[k] = clean(s[k])
         return {'class': self.cname, 'file': self.rel, 'attrs': attrs,
-                'init': clean(sorted(init.writes)), 'slots': sorted(slots - dead),
-                'getters': getters, 'setters': setters, 'dead': sorted(dead)}
+                'init': clean(sorted(init.writes)), 'shared': sorted(self.class_attrs - dead),
+                'slots': sorted(slots - dead),
+                'getters': getters, 'setters': setters, 'dead': sorted(dead), 'scratch': sorted(scratch)}
 
 
 def tables():
     out = []
     for rel, cname in CLASSES:
-        t = ClassInfo(rel, cname).table()
+        t = ClassInfo(rel, cname, bases=BASES.get(cname, ())).table()
         # totals per getter/setter with every nested property fully inlined: what a tracing run may touch
-        fi = ClassInfo(rel, cname, full=True)
+        fi = ClassInfo(rel, cname, full=True, bases=BASES.get(cname, ()))
         tot = {}
         for g in fi.getters:
             ef = fi.effects(fi.getters[g].body, (('p', g),))
@@ -366,14 +440,17 @@ def to_lean(tabs):
         out.append('  name := %s' % lean_str(t['class']))
         out.append('  attrs := [%s]' % ', '.join(lean_str(a) for a in t['attrs']))
         out.append('  init := %s' % _ids(t, t['init']))
+        out.append('  shared := %s' % _ids(t, t['shared']))
         gl = []
         for gname in sorted(t['getters']):
             g = t['getters'][gname]
             sl = ['{ guarded := %s, guard := %s, slots := %s, expr := %d, reads := %s, clears := %s }'
                   % ('true' if s['guarded'] else 'false', _ids(t, s['guard']), _ids(t, s['slots']), s['expr'],
                      _ids(t, s['reads']), _ids(t, s['clears'])) for s in g['sites']]
-            gl.append('    { name := %s, sites := [%s],\n      direct := %s, clears := %s }'
-                      % (lean_str(gname), ',\n        '.join(sl), _ids(t, g['direct']), _ids(t, g['clears'])))
+            idx = {a: i for i, a in enumerate(t['attrs'])}
+            rf = '[' + ', '.join('(%d, %d)' % (idx[a], e) for a, e in g['refines']) + ']'
+            gl.append('    { name := %s, sites := [%s],\n      direct := %s, clears := %s, refines := %s }'
+                      % (lean_str(gname), ',\n        '.join(sl), _ids(t, g['direct']), _ids(t, g['clears']), rf))
         out.append('  getters := [\n%s]' % ',\n'.join(gl))
         sl = ['    { name := %s, writes := %s, clears := %s }'
               % (lean_str(sname), _ids(t, s['writes']), _ids(t, s['clears']))
